@@ -205,9 +205,16 @@ def rule_closed_forms(repo: Repo, rep: Report) -> None:
     rep.shape(raises_zero, False, "CLOSED-FORM", fi, "inverse of zero raises", "zero has no inverse: ValueError", "inverse() no longer rejects the zero element")
 
     # --- trace / conjugates: m-1 squarings
+    conj_done = False
     for qual, what in (("FiniteBifieldElement.trace", "trace = sum of a^(2^i), i<m"), ("FiniteBifieldElement.conjugates", "conjugates a^(2^i), i<m")):
         fi = repo.func(ALG, qual)
         loops = [s for s in stmts_of(fi.body) if isinstance(s, ast.For)]
+        if qual.endswith("conjugates") and not (len(loops) == 1 and classify(loops[0].iter, ["range(1, self.field.m)", "range(self.field.m - 1)"])[0] == OK and any(match(x, "_E = _E * _E") is not None for x in loops[0].body if isinstance(x, ast.Assign))):
+            cst, cdetail = conjugates_tabulated(repo, fi)
+            if cst in (OK, VIOLATION):
+                rep.add("KERNEL", fi, "FiniteBifieldElement.conjugates tabulated over GF(4), GF(8), GF(16)", cst, cdetail, node=fi.node)
+                conj_done = True
+                continue
         if len(loops) != 1:
             rep.undecided("CLOSED-FORM", fi, "squaring loop", f"{len(loops)} for-loops (expected one)")
             continue
@@ -233,14 +240,18 @@ def rule_closed_forms(repo: Repo, rep: Report) -> None:
     # conjugates: stop only on returning to the start, append otherwise
     fi = repo.func(ALG, "FiniteBifieldElement.conjugates")
     brk = [s for s in stmts_of(fi.body) if isinstance(s, ast.If) and any(isinstance(b, ast.Break) for b in s.body)]
-    for b in brk:
+    for b in ([] if conj_done else brk):
         s, d, _ = classify(b.test, ["element.value == self.value", "element == self"])
         rep.add("CLOSED-FORM", fi, f"conjugate cycle closes: if {unparse(b.test)}: break", s, d, node=b)
 
     # --- BinaryPolynomial.gcd: Euclid
     fi = repo.func(ALG, "BinaryPolynomial.gcd")
     wl = [s for s in stmts_of(fi.body) if isinstance(s, ast.While)]
-    if len(wl) != 1:
+    gst, gdetail = gcd_tabulated(fi)
+    if gst in (OK, VIOLATION):
+        # the gcd is a pure function of two words: tabulated with the checker's own polynomial model (supersedes the shape rule)
+        rep.add("KERNEL", fi, "BinaryPolynomial.gcd tabulated against the Euclidean gcd in GF(2)[x]", gst, gdetail, node=fi.node)
+    elif len(wl) != 1:
         rep.undecided("CLOSED-FORM", fi, "Euclid loop", f"{len(wl)} while-loops")
     else:
         w = wl[0]
@@ -484,6 +495,70 @@ class _PolyModel(ast.NodeTransformer):
             node.left = ast.Attribute(value=node.left, attr="value", ctx=ast.Load())
             node.comparators = [ast.Attribute(value=node.comparators[0], attr="value", ctx=ast.Load())]
         return node
+
+
+def conjugates_tabulated(repo: Repo, fi: FuncInfo):
+    """An unlisted spelling of conjugates() is run for every element (zero included) of GF(4), GF(8) and GF(16) with own
+    model objects for field and elements (tables as `_init_log_exp_tables` builds them) and compared with the orbit of the
+    element under squaring."""
+    from ..frag import FragRaise, FragReturn, run_fragment
+
+    tb = repo.func(ALG, "FiniteBifield._init_log_exp_tables")
+    n = 0
+    for m, mod in ((2, 0b111), (3, 0b1011), (4, 0b10011)):
+        size = 1 << m
+        try:
+            env = run_fragment(tb.body, {}, {"self.m": m, "self.size": size, "self.modulus": gf2.BP(mod), "self.modulus.value": mod, "self._exp_table": [0] * size, "self._log_table": [0] * size}, max_steps=20000)
+            at = env["__attrs__"]
+            field = gf2.FieldModel(m, mod, at.get("self._exp_table"), at.get("self._log_table"))
+        except (Unfoldable, FragRaise, FragReturn, TypeError) as exc:
+            return UNDECIDED, f"log/antilog tables not evaluable ({exc})"
+        for v in range(size):
+            try:
+                run_fragment(fi.body, {"self": gf2.FieldElem(field, v)}, {}, max_steps=20000)
+                return UNDECIDED, "no value returned"
+            except FragReturn as r:
+                got = r.value
+            except FragRaise:
+                return VIOLATION, f"conjugates() of the element {v:#b} of GF(2^{m}) raises"
+            except (Unfoldable, TypeError, IndexError) as exc:
+                return UNDECIDED, f"not evaluable ({exc})"
+            want, e = [v], gf2.pmulmod(v, v, mod)
+            while e != v and len(want) < m:
+                want.append(e)
+                e = gf2.pmulmod(e, e, mod)
+            if not (isinstance(got, list) and all(isinstance(x, gf2.FieldElem) for x in got)):
+                return UNDECIDED, f"result {got!r} is not a list of field elements"
+            if [x.value for x in got] != want:
+                return VIOLATION, f"conjugates of the element {v:#b} of GF(2^{m}) are returned as {[x.value for x in got]}; the orbit under squaring is {want} (the minimal polynomial built from them is not the least-degree one)"
+            n += 1
+    return OK, f"equals the orbit under squaring for all {n} elements (zero included)"
+
+
+def gcd_tabulated(fi: FuncInfo):
+    """Run BinaryPolynomial.gcd (own model class gf2.BP for the polynomial objects) on all pairs of words below 48 and
+    on long words, and compare with gf2.pgcd."""
+    from ..frag import FragRaise, FragReturn, run_fragment
+
+    words = list(range(0, 48))
+    big = [(1 << 33) | 0b1010, (1 << 40) | (1 << 17), (1 << 20) - 2, 0b1011 << 7, 0b10011 << 3, (0b1011 << 5) ^ (0b1011 << 2)]
+    pairs = [(a, b) for a in words for b in words] + [(a, b) for a in big for b in big + [2, 4, 6, 12, 0b1011]] + [(b, a) for a in big for b in (2, 6, 0b1011 << 1)]
+    for a, b in pairs:
+        try:
+            run_fragment(fi.body, {"self": gf2.BP(a), "other": gf2.BP(b)}, {}, max_steps=20000, ctors={"BinaryPolynomial": gf2.BP})
+            return UNDECIDED, "no value returned"
+        except FragReturn as r:
+            got = r.value
+        except FragRaise:
+            return VIOLATION, f"gcd({bin(a)}, {bin(b)}) raises"
+        except (Unfoldable, TypeError, ZeroDivisionError) as exc:
+            return UNDECIDED, f"not evaluable ({exc})"
+        want = gf2.pgcd(a, b)
+        if not isinstance(got, gf2.BP):
+            return UNDECIDED, f"result {got!r} is not a polynomial"
+        if got.value != want:
+            return VIOLATION, f"gcd({bin(a)}, {bin(b)}) is returned as {bin(got.value)}; the greatest common divisor in GF(2)[x] is {bin(want)} (the returned polynomial is not a combination s*a + t*b of the operands / does not carry their common factor)"
+    return OK, f"equals the Euclidean gcd (own arithmetic) on {len(pairs)} operand pairs, common powers of x and equal operands included"
 
 
 def rule_kernels(repo: Repo, rep: Report) -> None:
